@@ -323,3 +323,7 @@ where
     };
     f(&cqueue)
 }
+
+#[cfg(kani)]
+#[path = "/verif/harness/may/cqueue.rs"]
+mod verif_kani;
